@@ -112,9 +112,10 @@ class ModuleInfo:
 
 
 class SourceModel:
-    def __init__(self, repo=None, overrides=None):
+    def __init__(self, repo=None, overrides=None, reuse=None):
         """overrides: {relpath: source text or ast.Module} used by the in-memory
-        variant self-tests (thorough tier)."""
+        variant self-tests (thorough tier).  reuse: a SourceModel of the same tree whose parsed
+        modules are shared for files that are not overridden (the trees are never mutated)."""
         self.repo = repo or REPO
         self.modules = {}
         self.by_relpath = {}
@@ -132,6 +133,12 @@ class SourceModel:
                 path = os.path.join(dirpath, fn)
                 rel = os.path.relpath(path, self.repo)
                 ov = overrides.get(rel)
+                if ov is None and reuse is not None and rel in reuse.by_relpath:
+                    old_m = reuse.by_relpath[rel]
+                    m = ModuleInfo(old_m.name, path, rel, old_m.tree, old_m.text, old_m.is_pkg)
+                    self.modules[m.name] = m
+                    self.by_relpath[rel] = m
+                    continue
                 if isinstance(ov, ast.Module):
                     tree = ov
                     text = ast.unparse(ov)
